@@ -283,8 +283,13 @@ def bandpath(kpts):
     samplings = xp.asarray(xp.round(scaled_dists), dtype=int)
 
     # If our sampling does not match the given N add the difference to the longest distance
-    if N - N_special - xp.sum(samplings) != 0:
-        samplings[xp.argmax(samplings)] += N - N_special - xp.sum(samplings)
+    # When rounding overshoots never remove more points than a segment has, continue with the next
+    missing = N - N_special - xp.sum(samplings)
+    while missing != 0:
+        idx = xp.argmax(samplings)
+        step = max(missing, -samplings[idx])
+        samplings[idx] += step
+        missing -= step
 
     # Generate k-point coordinates
     k_points = [xp.asarray(s_points[path_list[0]])]  # Insert the first special point
